@@ -51,7 +51,7 @@ def build(cfg, layer, log):
         tdir = os.path.join(TARGET, "asan")
         cmd = ["cargo", "+nightly", "build", "--release", "--target", "x86_64-unknown-linux-gnu"] + feats
         binary = os.path.join(tdir, "x86_64-unknown-linux-gnu", "release", "enrmon")
-        env = _env({"CARGO_TARGET_DIR": tdir, "RUSTFLAGS": "-Zsanitizer=address -Cforce-frame-pointers=yes",
+        env = _env({"CARGO_TARGET_DIR": tdir, "RUSTFLAGS": "-Zsanitizer=address -Cforce-frame-pointers=yes -Cllvm-args=-asan-use-after-scope=0",
                     "CC": "clang", "CFLAGS": "-fsanitize=address"})
     else:
         return False, None, "unknown layer " + layer
@@ -92,7 +92,7 @@ def wrapper(job, outdir, shard):
         return (["valgrind", "--quiet", "--error-exitcode=0", "--leak-check=full", "--show-leak-kinds=definite",
                  "--errors-for-leak-kinds=definite", "--log-file=" + logf], _env())
     if layer == "asan":
-        return ([], _env({"ASAN_OPTIONS": "halt_on_error=1:abort_on_error=1:detect_leaks=1:log_path=" +
+        return ([], _env({"ASAN_OPTIONS": "halt_on_error=1:abort_on_error=1:detect_leaks=1:detect_stack_use_after_scope=0:log_path=" +
                           os.path.join(outdir, "asan-%d" % shard)}))
     return ([], _env())
 
